@@ -17,6 +17,9 @@ func TestPropRead(t *testing.T)  { hx.Check(t, "read", GenRead, Exec) }
 func TestPropWrite(t *testing.T) { hx.Check(t, "write", GenWrite, Exec) }
 func TestPropLoad(t *testing.T)  { hx.Check(t, "load", GenLoad, Exec) }
 
+// TestPropConfig: the configuration path (filesystem/json ReadJSON/WriteJSON + flatten).
+func TestPropConfig(t *testing.T) { hx.Check(t, "config", GenConfig, Exec) }
+
 // enumAlphabet: one representative of every character class that JSON treats differently.
 var enumAlphabet = []rune{'a', '"', '\\', '/', '\n', '\t', 0x00, 0x1f, 0x7f, 'u', 'é', 0x2028, 0x1F600, '0'}
 
@@ -96,5 +99,5 @@ func TestEnum(t *testing.T) {
 func TestReplay(t *testing.T) {
 	ex := hx.Exec(Exec)
 	hx.Replay(t, map[string]func(json.RawMessage) (hx.Verdict, error){
-		"": ex, "mixed": ex, "maps": ex, "read": ex, "write": ex, "load": ex, "enum-write": ex, "enum-read": ex})
+		"": ex, "mixed": ex, "maps": ex, "read": ex, "write": ex, "load": ex, "config": ex, "enum-write": ex, "enum-read": ex})
 }
